@@ -1,2 +1,201 @@
+"""NumPy evaluator of arbitrary pytato DAGs (DESIGN §4.5).
+
+High-level nodes are evaluated by their NumPy meaning, IndexLambda through the
+independent pointwise interpreter, calls by evaluating the body with the
+bindings.  Needed wherever no term exists any more (after transformations).
+"""
+from __future__ import annotations
+
+import numpy as np
+
+import vf  # noqa: F401
+from vf import scalar_interp
+
+
+class EvalError(Exception):
+    pass
+
+
+class DagEval:
+    def __init__(self, inputs=None, sizes=None, recvs=None, lpcall=None):
+        self.inputs = dict(inputs or {})
+        self.sizes = dict(sizes or {})
+        self.recvs = recvs or {}     # (src_rank, comm_tag) -> ndarray
+        self.cache = {}
+        self.keep = []
+        self.lpcall = lpcall         # callable(LoopyCall, {name: value}) -> {name: ndarray}
+        self.sends = []              # DistributedSend nodes met (payload evaluated)
+
+    def shape(self, shp):
+        return tuple(self.dim(d) for d in shp)
+
+    def dim(self, d):
+        if isinstance(d, (int, np.integer)):
+            return int(d)
+        return int(self(d))
+
+    def __call__(self, expr):
+        k = id(expr)
+        if k in self.cache:
+            return self.cache[k]
+        with np.errstate(all="ignore"):
+            r = self._eval(expr)
+        self.cache[k] = r
+        self.keep.append(expr)
+        return r
+
+    def _eval(self, e):  # noqa: C901
+        import pytato as pt
+        from pytato.array import NormalizedSlice
+        from pytato.function import Call, NamedCallResult
+        from pytato.loopy import LoopyCall, LoopyCallResult
+        E = self
+        if isinstance(e, pt.SizeParam):
+            if e.name not in self.sizes:
+                raise EvalError(f"no value for size parameter {e.name!r}")
+            return np.asarray(self.sizes[e.name], dtype=e.dtype)
+        if isinstance(e, pt.Placeholder):
+            if e.name not in self.inputs:
+                raise EvalError(f"no value for placeholder {e.name!r}")
+            a = np.asarray(self.inputs[e.name])
+            shp = self.shape(e.shape)
+            if a.shape != shp:
+                raise EvalError(f"placeholder {e.name!r}: value shape {a.shape} != declared {shp}")
+            if a.dtype != e.dtype:
+                raise EvalError(f"placeholder {e.name!r}: value dtype {a.dtype} != declared {e.dtype}")
+            return a
+        if isinstance(e, pt.DataWrapper):
+            return np.asarray(e.data)
+        if isinstance(e, pt.IndexLambda):
+            b = {n: np.asarray(E(a)) for n, a in e.bindings.items()}
+            return scalar_interp.eval_index_lambda(e.expr, self.shape(e.shape), e.dtype, b)
+        if isinstance(e, pt.Einsum):
+            args = [np.asarray(E(a)) for a in e.args]
+            spec = einsum_spec(e)
+            with np.errstate(all="ignore"):
+                r = np.einsum(spec, *args) if args else None
+            return np.asarray(r).astype(e.dtype, copy=False)
+        if isinstance(e, pt.Stack):
+            return np.stack([E(a) for a in e.arrays], axis=e.axis).astype(e.dtype, copy=False)
+        if isinstance(e, pt.Concatenate):
+            return np.concatenate([E(a) for a in e.arrays], axis=e.axis).astype(e.dtype, copy=False)
+        if isinstance(e, pt.Roll):
+            return np.roll(E(e.array), e.shift, e.axis)
+        if isinstance(e, pt.AxisPermutation):
+            return np.transpose(E(e.array), e.axis_permutation)
+        if isinstance(e, pt.Reshape):
+            return np.reshape(E(e.array), self.shape(e.newshape), order=e.order)
+        if isinstance(e, pt.IndexBase):
+            a = np.asarray(E(e.array))
+            idx = []
+            for i, n in zip(e.indices, a.shape):
+                if isinstance(i, NormalizedSlice):
+                    st, sp, step = self.dim(i.start), self.dim(i.stop), self.dim(i.step)
+                    if step > 0:
+                        idx.append(slice(st, sp, step))
+                    elif st < 0:
+                        idx.append(slice(0, 0, 1))
+                    else:
+                        idx.append(slice(st, None if sp < 0 else sp, step))
+                elif isinstance(i, (int, np.integer)):
+                    idx.append(int(i))
+                else:
+                    idx.append(np.asarray(E(i)))
+            return a[tuple(idx)]
+        if isinstance(e, pt.CSRMatmul):
+            m = e.matrix
+            nr, nc = self.shape(m.shape)
+            vals, cols, rs = (np.asarray(E(x)) for x in (m.elem_values, m.elem_col_indices, m.row_starts))
+            dense = np.zeros((nr, nc), vals.dtype)
+            for r in range(nr):
+                for j in range(int(rs[r]), int(rs[r + 1])):
+                    dense[r, int(cols[j])] += vals[j]
+            return (dense @ np.asarray(E(e.array))).astype(e.dtype, copy=False)
+        if isinstance(e, NamedCallResult):
+            return self._call(e._container)[e.name]
+        if isinstance(e, LoopyCallResult):
+            return self._loopy_call(e._container)[e.name]
+        if isinstance(e, pt.NamedArray):
+            return E(e._container._data[e.name]) if hasattr(e._container, "_data") else E(e.expr)
+        if isinstance(e, pt.DistributedSendRefHolder):
+            self.sends.append((e.send, np.asarray(E(e.send.data))))
+            return E(e.passthrough_data)
+        if isinstance(e, pt.DistributedRecv):
+            key = (e.src_rank, e.comm_tag)
+            if key not in self.recvs:
+                raise EvalError(f"no message for recv {key}")
+            v = self.recvs[key]
+            v = np.asarray(v() if callable(v) else v)
+            shp = self.shape(e.shape)
+            if v.shape != shp or v.dtype != e.dtype:
+                raise EvalError(f"recv {key}: message {v.shape}/{v.dtype} != declared {shp}/{e.dtype}")
+            return v
+        if isinstance(e, (Call, LoopyCall, pt.DictOfNamedArrays)):
+            raise EvalError(f"cannot evaluate container {type(e).__name__} as an array")
+        raise EvalError(f"unknown node type {type(e).__name__}")
+
+    def _call(self, call):
+        k = ("call", id(call))
+        if k in self.cache:
+            return self.cache[k]
+        vals = {n: np.asarray(self(a)) for n, a in call.bindings.items()}
+        sub = DagEval(vals, self.sizes, self.recvs, self.lpcall)
+        res = {n: np.asarray(sub(a)) for n, a in call.function.returns.items()}
+        self.cache[k] = res
+        self.keep.append(call)
+        return res
+
+    def _loopy_call(self, lc):
+        k = ("lpcall", id(lc))
+        if k in self.cache:
+            return self.cache[k]
+        import pytato as pt
+        vals = {n: (np.asarray(self(a)) if isinstance(a, pt.Array) else a) for n, a in lc.bindings.items()}
+        if self.lpcall is None:
+            from vf import lpkernels
+            res = lpkernels.eval_loopy_call(lc, vals)
+        else:
+            res = self.lpcall(lc, vals)
+        self.cache[k] = res
+        self.keep.append(lc)
+        return res
+
+
+def einsum_spec(e):
+    """np.einsum subscripts from the access descriptors (independent of
+    pytato.utils.get_einsum_specification)"""
+    from pytato.array import EinsumElementwiseAxis, EinsumReductionAxis
+    letters = {}
+
+    def letter(d):
+        if d not in letters:
+            letters[d] = chr(ord("a") + len(letters))
+        return letters[d]
+    ins = []
+    for acc in e.access_descriptors:
+        s = ""
+        for d in acc:
+            if isinstance(d, EinsumElementwiseAxis):
+                s += letter(("e", d.dim))
+            elif isinstance(d, EinsumReductionAxis):
+                s += letter(("r", d.dim))
+            else:
+                raise EvalError(f"unknown einsum axis descriptor {d!r}")
+        ins.append(s)
+    out = "".join(letter(("e", i)) for i in range(e.ndim))
+    return ",".join(ins) + "->" + out
+
+
+def eval_dict(outputs, inputs=None, sizes=None, **kw):
+    """outputs: DictOfNamedArrays | dict name->Array | Array"""
+    import pytato as pt
+    ev = DagEval(inputs, sizes, **kw)
+    if isinstance(outputs, pt.Array):
+        return ev(outputs)
+    if isinstance(outputs, pt.DictOfNamedArrays):
+        return {n: np.asarray(ev(outputs._data[n])) for n in outputs}
+    return {n: np.asarray(ev(a)) for n, a in outputs.items()}
+
+
 def eval_shape_component(d, sizes):
-    raise NotImplementedError
+    return DagEval({}, sizes).dim(d)
